@@ -4039,7 +4039,7 @@ async fn run_rtp_direct_loop(
                             false
                         }
                     });
-                    let _ = inner.peer_state.send(PeerConnectionState::Failed);
+                    inner.set_peer_state(PeerConnectionState::Failed);
                 }
                 return;
             }
@@ -4192,7 +4192,7 @@ async fn run_ice_dtls_loop(
                             false
                         }
                     });
-                    let _ = inner.peer_state.send(PeerConnectionState::Failed);
+                    inner.set_peer_state(PeerConnectionState::Failed);
                 }
                 return;
             }
@@ -4273,11 +4273,11 @@ async fn handle_connected_state_no_dtls(
                         false
                     }
                 });
-                let _ = inner.peer_state.send(PeerConnectionState::Failed);
+                inner.set_peer_state(PeerConnectionState::Failed);
                 return false;
             }
             Ok(mut rtcp_loop) => {
-                let _ = inner.peer_state.send(PeerConnectionState::Connected);
+                inner.set_peer_state(PeerConnectionState::Connected);
                 let grace = inner.config.ice_disconnect_grace;
                 drop(inner);
 
@@ -4301,7 +4301,7 @@ async fn handle_connected_state_no_dtls(
                             match new_state {
                                 crate::transports::ice::IceTransportState::Disconnected => {
                                     if let Some(inner) = inner_weak.upgrade() {
-                                        let _ = inner.peer_state.send(PeerConnectionState::Disconnected);
+                                        inner.set_peer_state(PeerConnectionState::Disconnected);
                                     }
                                     let epoch = disconnect_epoch;
                                     let tx = grace_tx.clone();
@@ -4318,7 +4318,7 @@ async fn handle_connected_state_no_dtls(
                                 | crate::transports::ice::IceTransportState::Completed => {
                                     disconnect_epoch += 1;
                                     if let Some(inner) = inner_weak.upgrade() {
-                                        let _ = inner.peer_state.send(PeerConnectionState::Connected);
+                                        inner.set_peer_state(PeerConnectionState::Connected);
                                     }
                                     debug!("ICE recovered (epoch {}), grace cancelled", disconnect_epoch);
                                 }
@@ -4336,7 +4336,7 @@ async fn handle_connected_state_no_dtls(
                                             false
                                         }
                                     });
-                                    let _ = inner.peer_state.send(PeerConnectionState::Disconnected);
+                                    inner.set_peer_state(PeerConnectionState::Disconnected);
                                     if let Some(sctp) = inner.sctp_transport.lock().as_ref() {
                                         sctp.close();
                                     }
@@ -4380,11 +4380,11 @@ async fn handle_connected_state(
                                 false
                             }
                         });
-                        let _ = inner.peer_state.send(PeerConnectionState::Failed);
+                        inner.set_peer_state(PeerConnectionState::Failed);
                         return false;
                     }
                     Ok(mut rtcp_loop) => {
-                        let _ = inner.peer_state.send(PeerConnectionState::Connected);
+                        inner.set_peer_state(PeerConnectionState::Connected);
 
                         let dtls_state_rx = {
                             let dtls_guard = inner.dtls_transport.lock();
@@ -4409,7 +4409,7 @@ async fn handle_connected_state(
                                         }
                                         match new_state {
                                             crate::transports::ice::IceTransportState::Disconnected => {
-                                                let _ = inner.peer_state.send(PeerConnectionState::Disconnected);
+                                                inner.set_peer_state(PeerConnectionState::Disconnected);
                                                 let _ = ice_connection_state_tx.send(IceConnectionState::Disconnected);
                                                 let epoch = disconnect_epoch;
                                                 let tx = grace_tx.clone();
@@ -4425,7 +4425,7 @@ async fn handle_connected_state(
                                             crate::transports::ice::IceTransportState::Connected
                                             | crate::transports::ice::IceTransportState::Completed => {
                                                 disconnect_epoch += 1;
-                                                let _ = inner.peer_state.send(PeerConnectionState::Connected);
+                                                inner.set_peer_state(PeerConnectionState::Connected);
                                                 let _ = ice_connection_state_tx.send(IceConnectionState::Connected);
                                                 debug!("ICE recovered (epoch {}), grace cancelled", disconnect_epoch);
                                             }
@@ -4445,7 +4445,7 @@ async fn handle_connected_state(
                                                 let _ = inner.disconnect_reason.send_if_modified(|cur| {
                                                     if cur.is_none() { *cur = Some(reason); true } else { false }
                                                 });
-                                                let _ = inner.peer_state.send(PeerConnectionState::Disconnected);
+                                                inner.set_peer_state(PeerConnectionState::Disconnected);
                                                 let _ = ice_connection_state_tx.send(IceConnectionState::Disconnected);
                                                 return false;
                                             }
@@ -4463,7 +4463,7 @@ async fn handle_connected_state(
                                                     false
                                                 }
                                             });
-                                            let _ = inner.peer_state.send(PeerConnectionState::Disconnected);
+                                            inner.set_peer_state(PeerConnectionState::Disconnected);
                                             let _ = ice_connection_state_tx.send(IceConnectionState::Disconnected);
                                             if let Some(sctp) = inner.sctp_transport.lock().as_ref() {
                                                 sctp.close();
@@ -4492,7 +4492,7 @@ async fn handle_connected_state(
                                         }
                                         match new_state {
                                             crate::transports::ice::IceTransportState::Disconnected => {
-                                                let _ = inner.peer_state.send(PeerConnectionState::Disconnected);
+                                                inner.set_peer_state(PeerConnectionState::Disconnected);
                                                 let _ = ice_connection_state_tx.send(IceConnectionState::Disconnected);
                                                 let epoch = disconnect_epoch;
                                                 let tx = grace_tx.clone();
@@ -4508,7 +4508,7 @@ async fn handle_connected_state(
                                             crate::transports::ice::IceTransportState::Connected
                                             | crate::transports::ice::IceTransportState::Completed => {
                                                 disconnect_epoch += 1;
-                                                let _ = inner.peer_state.send(PeerConnectionState::Connected);
+                                                inner.set_peer_state(PeerConnectionState::Connected);
                                                 let _ = ice_connection_state_tx.send(IceConnectionState::Connected);
                                                 debug!("ICE recovered (epoch {}), grace cancelled", disconnect_epoch);
                                             }
@@ -4525,7 +4525,7 @@ async fn handle_connected_state(
                                                     false
                                                 }
                                             });
-                                            let _ = inner.peer_state.send(PeerConnectionState::Disconnected);
+                                            inner.set_peer_state(PeerConnectionState::Disconnected);
                                             let _ = ice_connection_state_tx.send(IceConnectionState::Disconnected);
                                             if let Some(sctp) = inner.sctp_transport.lock().as_ref() {
                                                 sctp.close();
@@ -4583,6 +4583,20 @@ fn is_ice_failed_or_closed(state: crate::transports::ice::IceTransportState) -> 
 impl PeerConnectionInner {
     /// Track a spawned task so it can be aborted on close. Only meant for
     /// fire-and-forget tasks whose lifetime should be bounded by the connection.
+    /// Publish a peer state coming from the transport loops. `Closed` is final:
+    /// a loop that was still starting or failing a transport while `close()` ran
+    /// must not turn the closed connection back into `Connected`/`Failed`.
+    fn set_peer_state(&self, state: PeerConnectionState) {
+        self.peer_state.send_if_modified(|cur| {
+            if *cur == PeerConnectionState::Closed || *cur == state {
+                false
+            } else {
+                *cur = state;
+                true
+            }
+        });
+    }
+
     fn track_task(&self, handle: tokio::task::JoinHandle<()>) {
         // Opportunistically prune finished handles so the vec stays small over
         // a long-lived connection with many renegotiations.
